@@ -124,6 +124,26 @@ def run(chk, replay=None):
             viol("ParseOfBuild", "TransportID", "protocol %d" % t["protocol_id"], {"in": str(want), "out": str(back)})
         if bytes(again) != bytes(raw):
             viol("BuildOfParse", "TransportID", "protocol %d" % t["protocol_id"], {})
+    # canonical TransportIDs (generator output that TLC accepts as exact) are rebuilt byte for byte
+    for _ in range(n):
+        raw0 = datafmt.transport_id(rng)
+        if raw0[0] & 0x0F != 5:
+            # canonical: reserved bytes zero (name fields FC/1394 8-15, RDMA 8-23, SAS 4-11)
+            keep = {0: range(8, 16), 3: range(8, 16), 4: range(8, 24), 6: range(4, 12)}[raw0[0] & 0x0F]
+            raw0 = bytearray([raw0[0] & 0x0F] + [raw0[i] if i in keep else 0 for i in range(1, 24)])
+        try:
+            back = FS.unmarshall_transport_id(bytearray(raw0))
+            again = FS.marshall_transport_id(copy.deepcopy(back))
+        except Exception as ex:
+            viol("BuildOfParse", "TransportID", "raised " + type(ex).__name__, {"bytes": list(raw0)})
+            continue
+        ev.case(("tid-canonical", bytes(raw0)))
+        t2 = dict(back)
+        if t2.get("protocol_id") == 5:
+            t2["iscsi_text"] = t2["iscsi_name"] + (",i,0x" + t2["iscsi_initiator_session_id"] if t2.get("tpid_format") else "")
+        marsh.append({"ev": "Marshal", "fmt": "TransportID", "in": flatten({"tid": t2}), "bytes": list(raw0), "exc": ""})
+        if bytes(again) != bytes(raw0):
+            viol("BuildOfParse", "TransportID", "protocol %d" % (raw0[0] & 0x0F), {"canonical": list(raw0), "rebuilt": list(again)})
     # read - modify - write of every field of every mode page through the facade (tools/swp.py)
     ec = mod("pyscsi.pyscsi.scsi_enum_command")
     SCSI = mod("pyscsi.pyscsi.scsi").SCSI
